@@ -1365,5 +1365,5 @@ def shortest_int(data: np.ndarray, percent: float=50) -> tuple[float, float]:
         diff = diff_lag(data, lag)
         i = np.where(np.abs(diff - np.min(diff)) < 1e-10)[0]
         if len(i) > 1:
-            i = int(np.mean(i))
+            i = i[len(i)//2]
         return np.array((data[i], data[i + lag]))
